@@ -50,7 +50,7 @@ def run_patch(kind, name):
         a = sh("git", "-C", wt, "apply", f"{d}/patch.diff")
         if a.returncode:
             return name, dict(error="patch does not apply: " + a.stderr[:200])
-        props = [meta["property"]] + EXTRA.get(name, []) + meta.get("also", []) if kind != "harmless" else ALL
+        props = [meta["property"]] + EXTRA.get(name, []) + meta.get("also", []) if kind != "harmless" else (os.environ.get("PYVC_CHECKS", "").split() or ALL)
         entry = dict(summary=meta.get("summary", "")[:160], checks={})
         env = dict(os.environ, PYVC_REPO=wt, PYVC_OUT=out)
         for p in props:
@@ -105,7 +105,16 @@ def main():
     shutil.rmtree(snap, ignore_errors=True)
     base = f"{SRC_ROOT}/{'seeded' if kind == 'seeds' else kind}"
     path = f"{base}/RESULTS.json"
-    old = json.load(open(path)) if os.path.exists(path) and len(sys.argv) > 2 else {}
+    old = json.load(open(path)) if os.path.exists(path) and (len(sys.argv) > 2 or os.environ.get("PYVC_CHECKS")) else {}
+    if os.environ.get("PYVC_CHECKS"):
+        # a partial re-run (some checks only): merge per check into the earlier entry of the same patch
+        for k, v in res.items():
+            if k in old and "checks" in old[k] and "checks" in v:
+                merged = dict(old[k]["checks"])
+                merged.update(v["checks"])
+                v["checks"] = merged
+                v["quiet"] = all(c["exit"] == 0 for c in merged.values())
+                v["partial_rerun"] = sorted(os.environ["PYVC_CHECKS"].split())
     old.update(res)
     json.dump(old, open(path, "w"), indent=1)
     key = "detected" if kind != "harmless" else "quiet"
